@@ -3,7 +3,7 @@
 /repo, confirm the demo fails with it and passes without, the test suite passes with it, and run the property's check against it."""
 import json, os, shutil, subprocess, sys, time
 V = os.path.dirname(os.path.dirname(os.path.abspath(__file__)))
-WT = "/tmp/wt_eval"
+WT = f"/tmp/wt_eval_{os.getpid()}"
 
 
 def sh(cmd, **kw):
